@@ -2,6 +2,7 @@ package props
 
 import (
 	"fmt"
+	"math"
 	"strings"
 
 	"verifharness/internal/fw"
@@ -9,7 +10,7 @@ import (
 	"verifharness/internal/val"
 )
 
-var c06Floor = []string{"distinct", "distinct.star", "distinct.multi", "distinct.dups", "distinct.lookalike", "distinct.grouped", "distinct.derived", "distinct.cte", "union.all", "union.distinct", "union.mixed", "chain.2", "chain.3", "chain.4", "union.limit", "union.limit.offset", "union.dups", "table.large", "reexec", "where", "badutf8", "union.cte", "union.cte.chain3", "branch.window"}
+var c06Floor = []string{"distinct", "distinct.star", "distinct.multi", "distinct.dups", "distinct.lookalike", "distinct.grouped", "distinct.derived", "distinct.cte", "union.all", "union.distinct", "union.mixed", "chain.2", "chain.3", "chain.4", "union.limit", "union.limit.offset", "union.dups", "table.large", "reexec", "union.async", "union.limit.all-from", "distinct.window", "where", "badutf8", "union.cte", "union.cte.chain3", "branch.window"}
 
 func init() {
 	fw.Register(&fw.Prop{
@@ -148,6 +149,19 @@ func c06Run(c *fw.Case) {
 		if shape != "" {
 			feats = append(feats, "distinct."+shape)
 		}
+		// a window over the distinct rows, also "all rows from m on"
+		dOff, dLim := 0, -1
+		if shape == "" && (force == "distinct.window" || (force == "" && c.Chance(0.2))) {
+			dOff = c.Intn(4)
+			dLim = c.Intn(5)
+			limText := fmt.Sprint(dLim)
+			if c.Chance(0.5) {
+				dLim = math.MaxInt64
+				limText = gen.Pick(c.R, []string{"18446744073709551615", "9223372036854775807"})
+			}
+			dsql += fmt.Sprintf(" LIMIT %d, %s", dOff, limText)
+			feats = append(feats, "distinct.window")
+		}
 		p := Run(doc(), plain)
 		d := Run(doc(), dsql)
 		feats = append(feats, "distinct")
@@ -160,6 +174,16 @@ func c06Run(c *fw.Case) {
 		want := dedupFirst(p.Rows)
 		if len(want) < len(p.Rows) {
 			feats = append(feats, "distinct.dups")
+		}
+		if dLim >= 0 {
+			if dOff >= len(want) {
+				want = nil
+			} else {
+				want = want[dOff:]
+				if dLim < len(want) {
+					want = want[:dLim]
+				}
+			}
 		}
 		// look-alikes: two rows that differ under typed equality but print alike under %v
 		seenV := map[string]string{}
@@ -194,6 +218,16 @@ func c06Run(c *fw.Case) {
 		k = 4
 	case "union.mixed":
 		k = 3 + c.Intn(2)
+	}
+	if force == "union.async" || (force == "" && c.Chance(0.08)) {
+		// the branches' columns are background calls: rows are compared by
+		// the values the calls return
+		parts := make([]string, len(cols))
+		for i, col := range cols {
+			parts[i] = "ASYNC.VBG(" + col + ") AS " + col
+		}
+		sel = strings.Join(parts, ", ")
+		feats = append(feats, "union.async")
 	}
 	var branches []string
 	var conns []bool // true = ALL
@@ -297,7 +331,13 @@ func c06Run(c *fw.Case) {
 	if force == "union.limit" || force == "union.limit.offset" || c.Chance(0.3) {
 		lim = c.Intn(len(acc) + 2)
 		feats = append(feats, "union.limit")
-		if force == "union.limit.offset" || c.Chance(0.5) {
+		if force == "union.limit.all-from" || (force == "" && c.Chance(0.15)) {
+			// "all rows from m on"
+			off = c.Intn(len(acc) + 2)
+			lim = math.MaxInt64
+			sql += fmt.Sprintf(" LIMIT %d, %s", off, gen.Pick(c.R, []string{"18446744073709551615", "9223372036854775807", "9223372036854775806"}))
+			feats = append(feats, "union.limit.all-from", "union.limit.offset")
+		} else if force == "union.limit.offset" || c.Chance(0.5) {
 			off = c.Intn(len(acc) + 2)
 			sql += fmt.Sprintf(" LIMIT %d OFFSET %d", lim, off)
 			feats = append(feats, "union.limit.offset")
